@@ -12,6 +12,8 @@ import Fbr.Lemmas.VfsAlloc
 import Fbr.Lemmas.VfsInv
 import Fbr.Lemmas.VfsRoute
 import Fbr.Gen.VfsSync
+import Fbr.Gen.VfsMod
+import Fbr.Gen.PseudoFs
 import Fbr.Lemmas.VfsMap
 import Fbr.Lemmas.VfsPseudo
 import Fbr.Lemmas.VfsPersist
@@ -420,6 +422,35 @@ theorem every_request_method_routes :
 theorem validated_methods_match_source :
     (Fbr.Gen.vfsSyncFns.filter (fun f => (f.2.2.2.2.1.map (·.1)).contains "validate_path_component")).map (·.2.2.1)
       = ["symlink", "mknod", "mkdir", "unlink", "rmdir", "rename", "link", "create", "setxattr", "getxattr", "removexattr"] := by
+  decide +kernel
+
+/-- the constants of the model are the ones in src/api/vfs/mod.rs today -/
+theorem constants_match_source :
+    Fbr.Gen.vfsModConsts.lookup "VFS_MAX_INO" = some VFS_MAX_INO ∧
+    Fbr.Gen.vfsModConsts.lookup "VFS_INDEX_SHIFT" = some 56 ∧ SHIFT = 2 ^ 56 ∧
+    Fbr.Gen.vfsModConsts.lookup "VFS_PSEUDO_FS_IDX" = some 0 ∧
+    Fbr.Gen.vfsModConsts.lookup "MAX_VFS_INDEX" = some MAX_VFS_INDEX ∧
+    Fbr.Gen.vfsModConsts.lookup "SLASH_ASCII" = some SLASH := by
+  decide +kernel
+
+/-- panic-site audit: the potential panic sites (unwrap / assert / index / unchecked arithmetic)
+    of the modelled functions are exactly the audited ones — `remap_id` (3 arithmetic: outcome
+    `panic` of the model, C14), `VfsInode::new` (assertion: unreachable by `Inv.inoOk`), the index
+    expressions into the 256-entry tables (indices are `u8`), the `lock().unwrap()`s (poisoned only
+    after a panic, which ends a history), and the `unwrap()`s of the pseudo fs walks (unreachable on
+    a well-formed tree, `step_no_panic`).  A new site in any of these functions changes the table. -/
+theorem panic_sites_audited :
+    (Fbr.Gen.vfsModPanicSites.filter (fun f => !f.2.isEmpty)).take 10 =
+      [("::remap_id", [("arith", 3)]), ("VfsInode::new", [("assert_eq", 1)]), ("Vfs::new", [("arith", 1)]),
+       ("Vfs::insert_mount_locked", [("index", 2)]), ("Vfs::mount_with_id_mapping", [("index", 1), ("unwrap", 1)]),
+       ("Vfs::restore_mount", [("unwrap", 1)]), ("Vfs::umount", [("index", 2), ("unwrap", 1)]),
+       ("Vfs::get_rootfs", [("unwrap", 1)]), ("Vfs::allocate_fs_idx", [("index", 1)]), ("Vfs::get_fs_by_idx", [("index", 1)])] ∧
+    ((Fbr.Gen.pseudoFsPanicSites.filter (fun f => !f.2.isEmpty)).take 7).map (·.1) =
+      ["PseudoInode::remove_child", "PseudoFs::new", "PseudoFs::mount", "PseudoFs::path_walk", "PseudoFs::evict_inode",
+       "PseudoFs::get_entry", "PseudoFs::do_readdir"] ∧
+    Fbr.Gen.pseudoFsPanicSites.lookup "PseudoFs::mount" = some [("unwrap", 5)] ∧
+    Fbr.Gen.pseudoFsPanicSites.lookup "PseudoFs::path_walk" = some [("unwrap", 3)] ∧
+    Fbr.Gen.pseudoFsPanicSites.lookup "PseudoFs::evict_inode" = some [("unwrap", 2)] := by
   decide +kernel
 
 /-! ### non-vacuity -/
